@@ -46,6 +46,30 @@ CHECKS = {
          'non-negative request sizes, refusal before the first read and no spurious refusal, for streams of <= 3 chunks.',
     note='Unwinding bound: at most 3 non-empty chunks per request. The response-side part of the property (start_response '
          'protocol, context close) is exercised by the pipeline harness.'),
+ 'C04': dict(
+    cat='model_checking', ref='DESIGN.md section 4 (C04)',
+    text='from_element runs on a stub element whose xsi:type attribute is a symbolic string (every string of the lengths of '
+         'all resolvable type names), _doc_to_object runs with a symbolic wrapper key and with every JSON value kind in every '
+         'slot; z3 decides whether any value of an inadmissible type can be delivered.',
+    note='Universe: Base/Sub/SubSub/Other/Holder, XmlDocument (None, soft), Soap11 soft, JsonDocument soft. Non-fault exceptions are '
+         'judged under C10, not here. The xsi:type admission defect is a recorded known finding.'),
+ 'C10': dict(
+    cat='model_checking', ref='DESIGN.md section 4 (C10)',
+    text='Leaf parsers of every primitive run on symbolic adversarial text (free-form strings and date/time shapes with symbolic '
+         'digits) through the XML, dict-document and HttpRpc entry points; every JSON kind in every slot; wrong nesting; symbolic '
+         'xsi:type text. The solver explores all paths; any path ending in a non-Fault exception or a non-Client fault is a '
+         'counterexample. Seven concrete malformed documents per protocol go through the real parsers in the pipeline harness.',
+    note='The byte-level parsers (lxml, json, yaml, msgpack) are C code: random bytes / all prefix truncations are outside the solver '
+         'part; the concrete malformed documents are enumeration, labelled as such. Text length <= 6 (plus length-guard boundaries).'),
+ 'C14': dict(
+    cat='fault_enumeration', ref='DESIGN.md section 4 (C14)',
+    text='The real pipeline (ServerBase and WsgiApplication; Json, Xml, Soap11, HttpRpc) runs under a fault schedule chosen by the '
+         'engine (request kind x failing stage x Fault/non-Fault x listener level); listeners at every level record the trace, '
+         'which must be accepted by the specification automaton written from the property text. Exhaustive over the single-failure '
+         'schedules listed in evidence.',
+    note='All data is concrete here (the wire parsers are C); what is explored exhaustively is the schedule space. Relative order of '
+         'service-level vs method-level managers is not asserted (the property does not fix it).',
+    technique='exhaustive fault-schedule exploration of the real pipeline driven by the symx engine (schedule variables as engine choices), trace checked against a specification automaton'),
 }
 
 NOT_APPLICABLE = {
